@@ -54,8 +54,10 @@ VARIABLES
   now, sweepAt, pingAt,
   hist,      \* history: [sent : payload -> [o, cid, dest], exitLog, origLog : sets, fwdEarly : [<<n,cid>> -> Nat]]
   budget,    \* [loss, dup, adv]
-  wire       \* history: every datagram that was ever in flight (what an eavesdropper saw); {} unless TrackWire
-vars == <<circ, relay, exit, retryC, createdC, createC, pingC, pend, net, ctr, now, sweepAt, pingAt, hist, budget, wire>>
+  wire,      \* history: every datagram that was ever in flight (what an eavesdropper saw); {} unless TrackWire
+  stepc      \* number of steps taken (stamps sleeping remove_* tasks so that two of them are two); 0 unless UseIds
+vars == <<circ, relay, exit, retryC, createdC, createC, pingC, pend, net, ctr, now, sweepAt, pingAt, hist, budget, wire,
+          stepc>>
 
 EmptyF == [x \in {} |-> 0]
 Put(f, k, v) == (k :> v) @@ f
@@ -71,7 +73,7 @@ Init ==
   /\ now = 0 /\ sweepAt = [n \in Node |-> SweepEvery] /\ pingAt = [n \in Node |-> PingEvery]
   /\ hist = [sent |-> EmptyF, exitLog |-> {}, origLog |-> {}, fwdEarly |-> EmptyF]
   /\ budget = [loss |-> 0, dup |-> 0, adv |-> 0]
-  /\ wire = {}
+  /\ wire = {} /\ stepc = 0
 
 (* ------------------------------------------------ onions ------------------------------------------------- *)
 Layer(k, d) == [k |-> k, d |-> d, ok |-> TRUE]
@@ -108,7 +110,7 @@ OwnCell(n, cid, m) ==
       circ |-> [c EXCEPT !.early = IF early THEN @ + 1 ELSE @]]
 
 (* remove_circuit / remove_relay / remove_exit_socket: mark + delayed pop *)
-Pending(n, kind, cid) == [n |-> n, kind |-> kind, cid |-> cid, due |-> now + RemoveDelay]
+Pending(n, kind, cid) == [n |-> n, kind |-> kind, cid |-> cid, due |-> now + RemoveDelay, k |-> stepc]
 
 (* ------------------------------------------- originator API --------------------------------------------- *)
 \* create_circuit + send_initial_create: first hop and alternatives are the originator's choice (logged in traces)
@@ -261,10 +263,10 @@ Ours(n, cid, m, consumed) ==
        /\ Emit(consumed, <<>>) /\ circ' = [circ EXCEPT ![n] = Beat(@, n, cid)]
        /\ UNCHANGED <<retryC, pend, ctr>>
   ELSE IF m.auth # [e1 |-> hop.eph, e2 |-> m.eph] THEN
-       \* verification failed: remove_circuit(circuit_id)
-       LET r == RemoveCircuitStep(n, cid, FALSE) IN
-       /\ circ' = [circ EXCEPT ![n] = Beat(r.circ, n, cid)] /\ retryC' = [retryC EXCEPT ![n] = r.retry]
-       /\ pend' = r.pend /\ Emit(consumed, <<>>) /\ UNCHANGED ctr
+       \* verify_and_generate_shared_secret raises CryptoException (not the ValueError the caller handles): the
+       \* catch-all of on_packet_from_circuit swallows it, nothing changes; the retry cache will time out
+       /\ Emit(consumed, <<>>) /\ circ' = [circ EXCEPT ![n] = Beat(@, n, cid)]
+       /\ UNCHANGED <<retryC, pend, ctr>>
   ELSE
     LET key == [e1 |-> hop.eph, e2 |-> m.eph, st |-> hop.peer]
         c1  == [c EXCEPT !.unv = NoHop, !.hops = Append(@, [peer |-> hop.peer, key |-> key])]
@@ -550,27 +552,42 @@ Sink(d) == /\ d \in net /\ d.dst \notin Node
 (* ---------------------------------------------- adversary ----------------------------------------------- *)
 AdvStep == budget.adv < MaxAdv /\ budget' = [budget EXCEPT !.adv = @ + 1]
 AdvFrame == UNCHANGED <<circ, relay, exit, retryC, createdC, createC, pingC, pend, now, sweepAt, pingAt, hist>>
-AdvPut(d) == net' = net \cup {[d EXCEPT !.id = IF UseIds THEN ctr.msg + 1 ELSE 0]} /\ ctr' = [ctr EXCEPT !.msg = Bump(@, 1)]
+AdvPut(d) == net' = net \cup {[id |-> IF UseIds THEN ctr.msg + 1 ELSE 0] @@ d} /\ ctr' = [ctr EXCEPT !.msg = Bump(@, 1)]
 AdvKey == [e1 |-> 0, e2 |-> 0, st |-> Adv]
 
 \* any byte of an encrypted cell altered in flight (the outermost AEAD layer no longer verifies)
-Tamper(d) == /\ AdvStep /\ d \in net /\ d.t = "cell" /\ d.L # <<>> /\ Head(d.L).ok
+Tamper(d) == /\ AdvStep /\ d \in net /\ d.t = "cell" /\ d.L # <<>>
              /\ net' = (net \ {d}) \cup {[d EXCEPT !.L = <<[Head(d.L) EXCEPT !.ok = FALSE]>> \o Tail(d.L)]}
              /\ UNCHANGED ctr /\ AdvFrame
+\* a header byte altered: the datagram no longer reaches a tunnel handler (prefix, message id, signature), names an
+\* unknown circuit (cid), or carries flipped plaintext / relay_early flags
+\* ghost mark: this message was re-labelled by the attacker (the layering claims speak about untouched cells)
+Taint(m) == [taint |-> TRUE] @@ m
+TamperHeader(d, what) ==
+  /\ AdvStep /\ d \in net /\ what \in {"drop", "cid", "plain", "early"}
+  /\ d.t = "destroy" => what = "drop"
+  /\ net' = CASE what = "drop" -> net \ {d}
+              [] what = "cid" -> (net \ {d}) \cup {[d EXCEPT !.cid = 0, !.m = Taint(@)]}
+              [] what = "plain" -> (net \ {d}) \cup {[d EXCEPT !.plain = ~@, !.m = Taint(@)]}
+              [] what = "early" -> (net \ {d}) \cup {[d EXCEPT !.early = ~@, !.m = Taint(@)]}
+  /\ UNCHANGED ctr /\ AdvFrame
 \* an in-flight cell of one circuit re-labelled with another circuit id
 Splice(d, cid) == /\ AdvStep /\ d \in net /\ d.t = "cell" /\ d.L # <<>> /\ cid \in 1..ctr.cid /\ cid # d.cid
-                  /\ net' = (net \ {d}) \cup {[d EXCEPT !.cid = cid]} /\ UNCHANGED ctr /\ AdvFrame
+                  /\ net' = (net \ {d}) \cup {[d EXCEPT !.cid = cid, !.m = Taint(@)]} /\ UNCHANGED ctr /\ AdvFrame
 \* a cell fabricated without any session key, from any claimed source
 Inject(src, dst, cid, mt) ==
-  /\ AdvStep /\ src \in Everyone /\ dst \in Node /\ cid \in 1..(ctr.cid + 1)
+  /\ AdvStep /\ src \in Everyone /\ dst \in Node /\ cid \in 0..ctr.cid      \* 0 = an id no table knows
   /\ mt \in {"data", "ping", "extend", "extended"}
   /\ AdvPut(Cell(src, dst, cid, FALSE, TRUE, <<Layer(AdvKey, F)>>, [t |-> mt, cid |-> cid, ident |-> 0, p |-> 0,
                                                                      dest |-> Adv, origin |-> Null]))
   /\ AdvFrame
 \* a plaintext create for a circuit id of the attacker's choice (possibly one that is in use)
 AdvCreate(src, dst, cid) ==
-  /\ AdvStep /\ src \in Everyone /\ dst \in Node /\ cid \in 1..(ctr.cid + 1)
-  /\ AdvPut(Cell(src, dst, cid, TRUE, FALSE, <<>>, [t |-> "create", cid |-> cid, ident |-> 0, pk |-> Adv, eph |-> 0]))
+  /\ AdvStep /\ src \in Everyone /\ dst \in Node /\ cid \in 0..ctr.cid     \* 0 = a fresh id of the attacker's choice
+  /\ LET c == IF cid = 0 THEN ctr.cid + 1 ELSE cid IN
+       /\ net' = net \cup {[id |-> IF UseIds THEN ctr.msg + 1 ELSE 0] @@
+                            Cell(src, dst, c, TRUE, FALSE, <<>>, [t |-> "create", cid |-> c, ident |-> 0, pk |-> Adv, eph |-> 0])}
+       /\ ctr' = [ctr EXCEPT !.msg = Bump(@, 1), !.cid = IF cid = 0 THEN @ + 1 ELSE @]
   /\ AdvFrame
 \* a plaintext data/ping cell (refused: only create/created may be plaintext)
 AdvPlain(src, dst, cid, mt) ==
@@ -584,10 +601,11 @@ ForgeDestroy(src, dst, cid, signer) ==
   /\ signer = Adv \/ \E d \in wire : d.t = "destroy" /\ d.signer = signer /\ d.cid = cid
   /\ AdvPut(Destroy(src, dst, cid, signer)) /\ AdvFrame
 \* handshake manipulation of an in-flight created / extended answer
-MangleAnswer(d, how) ==
+MangleAnswer(d, how, newcid) ==
   /\ AdvStep /\ d \in net /\ d.t = "cell" /\ d.m.t \in {"created", "extended"}
   /\ d.plain   \* the attacker can only rewrite what is not protected by a layer it cannot remove
   /\ how \in {"ident", "cid", "eph", "ephauth", "auth", "cands"}
+  /\ newcid \in 0..ctr.cid /\ (how = "cid" => newcid # d.cid)
   /\ LET m == d.m
          m2 == CASE how = "ident" -> [m EXCEPT !.ident = @ + 1000]
                  [] how = "cid" -> m
@@ -595,7 +613,7 @@ MangleAnswer(d, how) ==
                  [] how = "ephauth" -> [m EXCEPT !.eph = 0, !.auth = [e1 |-> m.auth.e1, e2 |-> 0]]
                  [] how = "auth" -> [m EXCEPT !.auth = [e1 |-> 0, e2 |-> 0]]
                  [] how = "cands" -> [m EXCEPT !.cands = [k |-> AdvKey, v |-> m.cands.v]]
-     IN net' = (net \ {d}) \cup {[d EXCEPT !.m = m2, !.cid = IF how = "cid" THEN (IF @ > 1 THEN @ - 1 ELSE @ + 1) ELSE @]}
+     IN net' = (net \ {d}) \cup {[d EXCEPT !.m = m2, !.cid = IF how = "cid" THEN newcid ELSE @]}
   /\ UNCHANGED ctr /\ AdvFrame
 
 (* ------------------------------------------------- Next ------------------------------------------------- *)
@@ -628,15 +646,18 @@ Core ==
 
 Adversary ==
   \/ "tamper" \in AdvKinds /\ \E d \in net : Tamper(d)
+  \/ "header" \in AdvKinds /\ \E d \in net, what \in {"drop", "cid", "plain", "early"} : TamperHeader(d, what)
   \/ "splice" \in AdvKinds /\ \E d \in net, cid \in 1..ctr.cid : Splice(d, cid)
-  \/ "inject" \in AdvKinds /\ \E src \in Everyone, dst \in Node, cid \in 1..(ctr.cid + 1), mt \in {"data", "ping", "extend", "extended"} :
+  \/ "inject" \in AdvKinds /\ \E src \in Everyone, dst \in Node, cid \in 0..ctr.cid, mt \in {"data", "ping", "extend", "extended"} :
         Inject(src, dst, cid, mt)
-  \/ "create" \in AdvKinds /\ \E src \in Everyone, dst \in Node, cid \in 1..(ctr.cid + 1) : AdvCreate(src, dst, cid)
+  \/ "create" \in AdvKinds /\ \E src \in Everyone, dst \in Node, cid \in 0..ctr.cid : AdvCreate(src, dst, cid)
   \/ "plain" \in AdvKinds /\ \E src \in Everyone, dst \in Node, cid \in 1..ctr.cid, mt \in {"data", "ping"} : AdvPlain(src, dst, cid, mt)
   \/ "destroy" \in AdvKinds /\ \E src \in Everyone, dst \in Node, cid \in 1..ctr.cid, s \in Everyone : ForgeDestroy(src, dst, cid, s)
-  \/ "mangle" \in AdvKinds /\ \E d \in net, how \in {"ident", "cid", "eph", "ephauth", "auth", "cands"} : MangleAnswer(d, how)
+  \/ "mangle" \in AdvKinds /\ \E d \in net, how \in {"ident", "cid", "eph", "ephauth", "auth", "cands"}, c \in 0..ctr.cid :
+        (how # "cid" => c = 0) /\ MangleAnswer(d, how, c)
 
-Next == (Core \/ Adversary) /\ wire' = (IF TrackWire THEN wire \cup net' ELSE wire)
+Tail2 == wire' = (IF TrackWire THEN wire \cup net' ELSE wire) /\ stepc' = (IF UseIds THEN stepc + 1 ELSE 0)
+Next == (Core \/ Adversary) /\ Tail2
 Spec == Init /\ [][Next]_vars
 
 (* ================================================ properties =============================================== *)
@@ -654,7 +675,7 @@ ExitIntegrity == \A e \in hist.exitLog : Has(hist.sent, e.p) /\ hist.sent[e.p].d
 ReturnIntegrity == \A e \in hist.origLog : Has(hist.sent, e.p) /\ hist.sent[e.p].o = e.n /\ hist.sent[e.p].cid = e.cid
                                            /\ e.origin = "outside"
 \* on link i of a k-hop path a forward cell carries k-i layers (>= 1), a backward cell i layers counted from the exit
-HonestData(d) == d.t = "cell" /\ d.m.t = "data" /\ Has(hist.sent, d.m.p)
+HonestData(d) == d.t = "cell" /\ d.m.t = "data" /\ Has(hist.sent, d.m.p) /\ "taint" \notin DOMAIN d.m
 LayerDepth ==
   \A d \in net : HonestData(d) /\ (\A l \in DOMAIN d.L : d.L[l].ok) =>
      LET s == hist.sent[d.m.p] IN
